@@ -265,6 +265,12 @@ Named(name) ==
          StructT(<<Fld(<<118>>, [k |-> "u8"], "plain", FALSE, <<>>),
                    Fld(<<107, 105, 100, 115>>, [k |-> "vec", e |-> NamedT("RecTree")], "plain", FALSE, <<8>>)>>,
                  <<Stp("Added", <<107, 105, 100, 115>>, <<8>>)>>)
+    [] name = "Throwable" ->   \* desert-scala's PersistedThrowable (golden data set)
+         StructT(<<Fld(<<99, 108, 97, 115, 115, 95, 110, 97, 109, 101>>, [k |-> "str"], "plain", FALSE, <<>>),
+                   Fld(<<109, 101, 115, 115, 97, 103, 101>>, [k |-> "str"], "plain", FALSE, <<>>),
+                   Fld(<<115, 116, 97, 99, 107, 95, 116, 114, 97, 99, 101>>, [k |-> "vec", e |-> [k |-> "tup", es |-> <<[k |-> "opt", e |-> [k |-> "str"]], [k |-> "opt", e |-> [k |-> "str"]],
+                                                                     [k |-> "opt", e |-> [k |-> "str"]], [k |-> "varu32"]>>]], "plain", FALSE, <<>>),
+                   Fld(<<99, 97, 117, 115, 101>>, [k |-> "opt", e |-> [k |-> "box", e |-> NamedT("Throwable")]], "Option", FALSE, <<>>)>>, <<>>)
     [] name = "RecEnum" ->
          EnumT(<<VariantT(<<76, 101, 97, 102>>, "tuple", <<Fld(VariantFieldName(0), [k |-> "u8"], "plain", FALSE, <<>>)>>, <<>>, FALSE),
                  VariantT(<<78, 111, 100, 101>>, "struct",
@@ -382,6 +388,7 @@ EncM(m, T, v, st) ==
     [] T.k = "dstr" -> EncDedup(Tail(v), st)
     [] T.k = "tz" -> EOk(<<1>> \o EncStrBytes(Tail(v)), st)
     [] T.k = "foffset" -> EOk(<<0>> \o VarI(v[2]), st)
+    [] T.k = "varu32" -> EOk(VarUW(<<v[2], v[3]>>), st)      \* a bare var_u32 (hand-written codecs, e.g. line numbers)
     [] T.k = "ndate" -> EOk(VarUW(YearU32(v[2])) \o <<v[3], v[4]>>, st)
     [] T.k = "ntime" -> EOk(<<v[2], v[3], v[4]>> \o VarU(v[5]), st)
     [] T.k \in {"ndt", "dtlocal"} -> EncTs(m, <<[k |-> "ndate"], [k |-> "ntime"]>>, v, 1, 1, st)
@@ -644,6 +651,7 @@ Dec(T, b, p, lim, st) ==
     [] T.k = "tz" -> IF Avail(p, lim) < 1 THEN DErr("InputEnded")
                      ELSE IF b[p] # 1 THEN DErr("BadTag")
                      ELSE LET r == DecString(b, p + 1, lim) IN IF ~r.ok THEN r ELSE IF r.s \in KnownZones THEN DOk(<<3>> \o r.s, r.p, st) ELSE DErr("Unspecified")
+    [] T.k = "varu32" -> LET c == RdVarU(b, p, lim) IN IF ~c.ok THEN DErr("InputEnded") ELSE DOk(<<17, c.u[1], c.u[2]>>, c.p, st)
     [] T.k = "foffset" -> IF Avail(p, lim) < 1 THEN DErr("InputEnded")
                           ELSE IF b[p] # 0 THEN DErr("BadTag")
                           ELSE LET c == RdVarI(b, p + 1, lim) IN
